@@ -919,6 +919,41 @@ pub fn sc_empty_writers(_input: &[u8]) -> u32 {
     0
 }
 
+
+// ------------------------------------------------------------------ other std containers (bounded)
+// (BTreeSet / BTreeMap with two entries did not finish in 25 min under CBMC: not covered)
+/// LinkedList<u8> with two elements: writer emits count + items in order; the reader gives the
+/// same list back (order kept) -- both impls of the real crate
+pub fn sc_list_rt(input: &[u8]) -> u32 {
+    if input.len() < 2 {
+        return 0;
+    }
+    let mut l = std::collections::LinkedList::new();
+    l.push_back(input[0]);
+    l.push_back(input[1]);
+    let l = std::mem::ManuallyDrop::new(l);
+    let exp = [4u8, input[0], input[1]];
+    let mut rec = Rec::new();
+    if !ser_into(&*l, &mut rec) || !expect(&rec, &exp) {
+        return 1;
+    }
+    let mut c = std::mem::ManuallyDrop::new(DeserializationContext::new(&exp));
+    match <std::collections::LinkedList<u8> as BinaryDeserializer>::deserialize(&mut *c) {
+        Ok(back) => {
+            let back = std::mem::ManuallyDrop::new(back);
+            if back.len() != 2 {
+                return 2;
+            }
+            let mut it = back.iter();
+            if it.next() != Some(&input[0]) || it.next() != Some(&input[1]) {
+                return 3;
+            }
+            0
+        }
+        Err(_) => 4,
+    }
+}
+
 // ------------------------------------------------------------------ C15: size calculator == bytes written
 /// for every u32 / i32 value: the SizeCalculator counts exactly the bytes a recording sink receives for write_var_u32 / write_var_i32
 pub fn sc_size_calc(input: &[u8]) -> u32 {
@@ -1242,6 +1277,7 @@ pub const SCENARIOS: &[(&str, Scenario, usize, &str)] = &[
     ("leaf_64", sc_leaf_64, 8, "u64/i64/f64 serialize + deserialize impls, all values / bit patterns"),
     ("leaf_128", sc_leaf_128, 16, "u128/i128 serialize + deserialize impls, all values"),
     ("leaf_bool", sc_leaf_bool, 1, "bool and () serialize + deserialize impls"),
+    ("list_rt", sc_list_rt, 2, "BOUNDED (2 elements, all values): LinkedList<u8> writer bytes and reader round trip, order kept"),
     ("var_read_any", sc_var_read_any, 6, "read_var_u32 == lenient reference reader on all inputs of length 0..=6"),
 ];
 
